@@ -207,8 +207,8 @@ Qed.
 
 (* the encoders succeed on every well-formed call *)
 Theorem encode_total : forall pk w h comps P near pixelData,
-  1 <= w -> 1 <= h -> comps = 1 \/ comps = 3 -> 2 <= P <= 16 -> 0 <= near <= 255 ->
-  zlen (pixelsToIntegers P pixelData) = w * h * comps ->
+  1 <= w <= 65535 -> 1 <= h <= 65535 -> comps = 1 \/ comps = 3 -> 2 <= P <= 16 -> 0 <= near <= 255 ->
+  w * h * comps * Z.quot (P + 7) 8 <= zlen pixelData ->
   exists stream, encode_image pk w h comps P near pixelData = Ok stream.
 Proof.
   intros pk w h comps P near px Hw Hh Hc HP Hn Hlen. unfold encode_image.
@@ -217,7 +217,8 @@ Proof.
   rewrite Hcc. destruct (Z.ltb_spec P 2); [lia|]. destruct (Z.gtb_spec P 16); [lia|]. cbn [orb].
   assert (Hnn : match pk with PkLossless => false | PkNear => (near <? 0) || (near >? 255) end = false).
   { destruct pk; [reflexivity|]. destruct (Z.ltb_spec near 0); [lia|]. destruct (Z.gtb_spec near 255); [lia|]. reflexivity. }
-  rewrite Hnn. rewrite Hlen, Z.eqb_refl. cbn [negb].
+  rewrite Hnn. destruct (Z.gtb_spec w 65535); [lia|]. destruct (Z.gtb_spec h 65535); [lia|]. cbn [orb].
+  destruct (Z.ltb_spec (zlen px) (w * h * comps * Z.quot (P + 7) 8)); [lia|]. cbv zeta.
   unfold encode_scan_ops.
   destruct (comps >? 1).
   - destruct (enc_lines3_total pk (jls_params P near) w (Z.to_nat w) (Z.to_nat h) 0 z3 z3 (jst_init (jls_params P near)) []
